@@ -131,6 +131,8 @@ type c05Fld struct {
 	Tag2 []string `json:"tag2,omitempty"` // request structs: further parts (path form header json) the field is tagged for, all optional
 	FN   string   `json:"fn,omitempty"`   // fixed Go name and key (fields of compiled struct types)
 	FK   string   `json:"fk,omitempty"`
+	OD   string   `json:"od,omitempty"`   // "optional=<OD>": optional depending on a sibling key ("k" = both or neither, "!k" = exactly one); Opt is set too
+	OB   bool     `json:"ob,omitempty"`   // options written in the bracket form options=[a,b] instead of a|b
 }
 
 // Environment variables of env= fields. Names must be fresh for every call of the
@@ -327,13 +329,22 @@ func (f *c05Fld) tagText(i int) string {
 	} else {
 		parts = append(parts, f.key(i))
 	}
-	if f.Opt {
+	if f.Opt && f.OD != "" {
+		parts = append(parts, "optional="+f.OD)
+	} else if f.Opt {
 		parts = append(parts, "optional")
 	}
 	if f.Def != nil {
-		parts = append(parts, "default="+*f.Def)
+		d := *f.Def
+		if c05IsScalar(f.T.K) {
+			// a comma inside a scalar default is written with the tag grammar's escape character
+			d = strings.ReplaceAll(d, ",", `\,`)
+		}
+		parts = append(parts, "default="+d)
 	}
-	if len(f.Opts) > 0 {
+	if len(f.Opts) > 0 && f.OB {
+		parts = append(parts, "options=["+strings.Join(f.Opts, ",")+"]")
+	} else if len(f.Opts) > 0 {
 		parts = append(parts, "options="+strings.Join(f.Opts, "|"))
 	}
 	if f.Rng != nil {
